@@ -34,12 +34,17 @@ CHECKS = {
   "C03": dict(level="model_checking", design="3.6, 4 (C03)",
       text="MxX509 states the property (Valid: a signed path to an anchor with CA/keyUsage/pathLen/validity/critical-extension rules) and the transcribed procedure of matrixValidateCertsExt/psX509AuthenticateCert (Walk); TLC compares them exhaustively over 77k abstract scenarios (7 chain shapes x 5 anchor sets x two single-field deviations anywhere: signatures corrupted/wrong key/copied octets, names, CA flag, pathLen, keyUsage, validity, critical unknown extension, algorithm, AKI/SKI, EKU). The same scenarios are generated as real DER certificates with OpenSSL and run through the library; every answer is validated by TLC against Valid (soundness, and completeness on the supported subset).",
       technique="TLA+ spec MxX509 (Valid vs transcribed Walk) checked by TLC + validation of the library's verdicts on generated chains (MxX509_Trace)"),
+  "C05": dict(level="model_checking", design="3.6, 4 (C05)",
+      text="MxName states the matching rule (exact case-insensitive match per kind, '*' for exactly one left-most label, CN only without supported SAN); TLC tabulates it over a universe of patterns x expected names and checks order independence, CN-only-without-SAN and one-label wildcards as invariants. Real leaf certificates with generated SAN lists (0-3 entries from a pool with wildcards in every position, partial wildcards, case variants, trailing dots, control characters, trailing/double/embedded NULs, e-mail, IP, URI entries; every order of sampled pairs/triples) x CN choices are run through matrixValidateCertsExt for each expected name of a grammar, and every verdict is validated by TLC against Match (soundness; completeness on names without trailing dot).",
+      technique="TLA+ spec MxName checked by TLC + validation of the library's verdicts on generated certificates (MxName_Trace)"),
 }
 PKI_NOTE = ("Trusted base: TLC; OpenSSL (harness/certgen.c) as the independent certificate factory and the abstract-field -> DER mapping; 'success' = return code >= 0 and every presented certificate PS_CERT_AUTH_PASS. "
             "CRLs/OCSP are not modelled. Quick tier: all scenarios with at most one deviation plus a sample of pairs; thorough: the whole universe.")
 CHAN_NOTE = ("Trusted base: TLC; link-time wrappers around psAesInitGCM/psAesEncryptGCM/psChacha20Poly1305Ietf*/psGetPrngLocked and the guarded seal hook are the observation points; "
              "the driver compares delivered bytes with the peer application's stream; authenticity oracle as for C01. Bounds: model MaxMsgs/MaxEdits/MaxPhases (see cfg); implementation: sampled scenarios per suite family x version.")
-NOTES = {"C01": SESSION_NOTE, "C06": SESSION_NOTE, "C15": SESSION_NOTE, "C02": CHAN_NOTE, "C17": CHAN_NOTE, "C03": PKI_NOTE}
+NAME_NOTE = ("Trusted base: TLC; OpenSSL (harness/certgen.c) writes the raw GeneralName octets; the abstract view of a name (labels, wildcard kind per label, flags) is computed by tools/namegen.py from the same string. "
+             "CStringSan (a SAN entry with one terminating zero byte is read as the C string before it) is a named, deliberate behaviour of the library and modelled as such; e-mail local parts: soundness uses the case-insensitive reading, completeness the verbatim one.")
+NOTES = {"C05": NAME_NOTE, "C01": SESSION_NOTE, "C06": SESSION_NOTE, "C15": SESSION_NOTE, "C02": CHAN_NOTE, "C17": CHAN_NOTE, "C03": PKI_NOTE}
 
 def main():
     hooks_commits = subprocess.run(["git", "-C", "/repo", "log", "--format=%h %s", "--grep=^verif:"], capture_output=True, text=True).stdout.strip().splitlines()
